@@ -51,7 +51,7 @@ def _drive_sched(args):
     out = []
     for si, sched in enumerate(scheds):
         r = drv.rng(seed, 'sched', lo + si)
-        blk = [bool((lo + si + i) & 1) for i in range(4)]
+        blk = [bool(((lo + si) >> i) & 1) for i in range(4)]     # every combination of blocked / unblocked instances
         # files for the two readers, written beforehand (not part of the trace)
         rfiles = []
         for i in (2, 3):
@@ -134,6 +134,33 @@ def _drive_files(args):
     return out
 
 
+def _drive_sizes(args):
+    """record-size sweep: a first record of every size in windows around the block boundaries (its end, or the
+    reader's refill point, falls on / next to a 1012-byte payload boundary), followed by small records"""
+    seed, codec, sizes = args
+    bc = PKG['bit_config']
+    out = []
+    for tid, n in enumerate(sizes):
+        blocked = True
+        msgs = [isoc.message_exact(n, codec), {'MTI': '1240', 'DE3': '000001'}, isoc.message_exact(60 + n % 40, codec)]
+        if n % 3 == 0:
+            msgs.insert(0, {'MTI': '1240', 'DE3': '999999', 'DE2': '5' * (n % 17 + 1)})
+        f = io.BytesIO()
+        w = mciipm.IpmWriter(f, encoding=codec, iso_config=bc, blocked=blocked)
+        events = []
+        for m in msgs:
+            w.write(dict(m))
+            events.append(ipmc.iev(1, 'write', m=m))
+        w.close()
+        data = f.getvalue()
+        events += [ipmc.iev(1, 'fin'), ipmc.iev(1, 'file', b=data)] + ipmc.read_all_events(1, data, codec, bc, blocked)
+        for e in events:
+            e.pop('_exc', None)
+        out.append({'tid': tid, 'loc': True, 'strict': True, 'insts': [{'blk': blocked}], 'events': events,
+                    '_desc': 'blocked %s file whose %s record is %d bytes' % (codec, 'second' if n % 3 == 0 else 'first', n)})
+    return out
+
+
 def run(rep, wd, tier, seed):
     rep.assumptions += ['TLC 1.8 evaluates the TLA+ text correctly', 'file objects are io.BytesIO']
     prog, scheds = schedules(rep, wd, tier, seed)
@@ -165,7 +192,18 @@ def run(rep, wd, tier, seed):
             for part in core.split(ids, 3):
                 jobs.append((seed, cfgspec, codec, part))
     outs = isocheck._pool(_drive_files, jobs)
+    sizes = sorted({1012 * k + d for k in (1, 2, 3, 4, 5) for d in range(-14, 12) if 40 <= 1012 * k + d <= 5990})
+    if tier == 'thorough':
+        sizes = list(range(40, 5991, 1))[::3] + sizes
+    sjobs = [(seed, ('latin_1', 'cp500')[i % 2], part) for i, part in enumerate(core.split(sizes, core.NCPU))]
+    souts = isocheck._pool(_drive_sizes, sjobs)
+    rep.extra['record_size_sweep'] = len(sizes)
     groups = {}
+    for j, o in zip(sjobs, souts):
+        g = groups.setdefault((('pkg',), j[1]), [])
+        for t in o:
+            t['tid'] = len(g)
+            g.append(t)
     for j, o in zip(jobs, outs):
         g = groups.setdefault((j[1], j[2]), [])
         for t in o:
